@@ -52,6 +52,11 @@ def cases(tier, seed):
     # component of the blind catalogue in turn
     for names in (["blend2", "point"], ["blend3", "negative"], ["blend2", "blend3"]):
         yield "rejects", dict(names=names)
+    # noise / background supplied as FILES that are blank where the image is blank (what BANE writes), a blank edge running
+    # diagonally a few pixels from the sources so that island bounding boxes contain blank noise pixels
+    for names in (["point", "extended"], ["blend2", "negative"], ["blend3", "small"]):
+        for gap in (3, 5):
+            yield "blankrms", dict(names=names, gap=gap)
     yield "big", dict(kind="blank")
     yield "big", dict(kind="nan_image")
     yield "big", dict(kind="grid7")
@@ -270,6 +275,50 @@ def ev_rejects(case, ctx):
             os.remove(p_)
 
 
+def ev_blankrms(case, ctx):
+    from AegeanTools.models import ComponentSource, IslandSource
+    d = os.environ["VERIF_SCRATCH"]
+    names, gap = case["names"], case["gap"]
+    hdr, img, srcs = scenes.build_scene(names)
+    img = np.array(img, dtype=float)
+    rows, cols = img.shape
+    ii, jj = np.mgrid[0:rows, 0:cols]
+    blank = np.zeros(img.shape, dtype=bool)
+    for s_ in srcs:
+        x, y = wz.sky2pix(hdr, s_["ra"], s_["dec"])
+        r0, c0 = float(y) - 1, float(x) - 1
+        # a diagonal blank wedge whose edge passes `gap` + 3 pixels from the source centre
+        blank |= ((ii - r0) + (jj - c0) > (gap + 3) * np.sqrt(2.0)) & ((ii - r0) + (jj - c0) < (gap + 9) * np.sqrt(2.0)) & (np.abs((ii - r0) - (jj - c0)) < 14)
+    img[blank] = np.nan
+    rms = np.full(img.shape, scenes.RMS)
+    rms[blank] = np.nan
+    bkg = np.zeros(img.shape)
+    bkg[blank] = np.nan
+    f, fr, fb = [os.path.join(d, n) for n in ("c03q.fits", "c03q_rms.fits", "c03q_bkg.fits")]
+    scenes.write_image(f, hdr, img)
+    scenes.write_image(fr, hdr, rms)
+    scenes.write_image(fb, hdr, bkg)
+    sig = "blankrms=%s,gap=%d" % ("+".join(names), gap)
+    try:
+        for mode, kw in (("blind", {}), ("island", dict(doislandflux=True))):
+            ctx.count("runs")
+            msig = "%s,mode=%s" % (sig, mode)
+            try:
+                out = scenes.finder().find_sources_in_image(f, rmsin=fr, bkgin=fb, cores=1, docov=False, nonegative=False, **kw)
+            except Exception as e:
+                ctx.violation("%s run with blank-edged noise / background files raised %r (%s)" % (mode, e, sig), "raise|" + msig)
+                continue
+            comps = [s_ for s_ in out if isinstance(s_, ComponentSource)]
+            ctx.outcome("blankrms_n=%d" % len(comps))
+            if comps:
+                ctx.nontrivial(msig)
+            check_components(comps, ctx, msig)
+    finally:
+        for p_ in (f, fr, fb):
+            if os.path.exists(p_):
+                os.remove(p_)
+
+
 def ev_big(case, ctx):
     d = os.environ["VERIF_SCRATCH"]
     kind = case["kind"]
@@ -454,4 +503,4 @@ def ev_cli(case, ctx):
 
 
 def evaluate(clause, case, ctx):
-    dict(scene=ev_scene, big=ev_big, history=ev_history, cli=ev_cli, rejects=ev_rejects)[clause](case, ctx)
+    dict(scene=ev_scene, big=ev_big, history=ev_history, cli=ev_cli, rejects=ev_rejects, blankrms=ev_blankrms)[clause](case, ctx)
